@@ -75,14 +75,29 @@ CHECKS = [
               'raising call leaves every later query unchanged), the final get_package_conf_or_none equals the nearest registered '
               'ancestor, else beartype_all, unless a skipped prefix applies, and after a beartyping block the previous answer and the '
               'path-hook presence are restored.'),
+    dict(id='C08', engine='X', cat='other', ref='8.7',
+         technique='CrossHair symbolic execution of the real decorated coroutine / generator / asynchronous generator against the undecorated original under symbolic inner and driver scripts (bounded trace equivalence)',
+         note='Trusted base: CrossHair 0.0.110 + z3, CPython\'s generator protocol (executed, not modelled), the scripted originals and drivers of '
+              'bearverif/xh/c08x.py. Bounds: inner script of 2 actions (yield|suspend / return / raise with an int payload in [-1,3], 3 = a non-int '
+              'return value; asynchronous generators additionally with or without an awaiting clean-up in `finally`), driver script of 2 '
+              'operations out of next|send(v)|throw(E(v))|close (async forms; step / throw / close for coroutines) plus a final close; thorough: '
+              '3x2 and 2x3 scripts and two more configurations. Outside: longer histories, other annotations than Generator[int,int,int] / '
+              'AsyncGenerator[int,int] / int, originals that yield while handling GeneratorExit (the property\'s proviso), real event loops, '
+              'cancellation, keyword / extra parameters (C04 covers parameter passing for synchronous callables).',
+         text='Every harness must come back "Confirmed over all paths" with a refuted reachability twin: for all scripts within the bounds the '
+              'caller-visible trace (kind of object produced, yielded values, StopIteration values, exception classes and arguments, suspensions) '
+              'and the body-visible trace (values sent in, exceptions caught, GeneratorExit, finalisation, asynchronous clean-up, interleaved with '
+              'the caller\'s operations) of the decorated callable equal those of the original, a non-int coroutine result surfaces as the '
+              'configured return violation, and inspect reports the same callable kind.'),
     dict(id='C17', engine='X', cat='other', ref='4/C17',
          technique='CrossHair symbolic execution of the real BeartypeConf.__new__/__eq__/__hash__/kwargs over creation histories with symbolic option values',
          note='Trusted base: CrossHair 0.0.110 + z3, the documented per-option validity predicate (c17x.valid), harness hygiene of DESIGN 1.2 '
               '(short-circuiting off, memo table emptied at the start and end of every path). Bounds: option values bool / int in [-1,2] / '
               'None for boolean and tri-state options, every enum member + 3 non-members, 5 valid/invalid classes; histories of 2 creations '
               '(3 for single options); which options vary is enumerated (3 singles, 2 pairs, enum and class options quick; all singles, all '
-              'pairs, triples thorough). Outside: float look-alikes (0.0, 1.0) and is_pep484_tower (CrossHair artefacts, see DESIGN), '
-              'unhashable collections, threads.',
+              'pairs, triples thorough); claw_skip_package_names / hint_overrides / the violation_type quadruple range over menus of valid and '
+              'invalid values picked by a symbolic index; is_pep484_tower also together with overrides repeating or contradicting the tower. '
+              'Stub: FrozenDict.__or__ runs untraced. Outside: float look-alikes (0.0, 1.0), NumPy booleans, threads.',
          text='Every harness must come back "Confirmed over all paths" with a refuted reachability twin: a creation raises '
               'BeartypeConfParamException iff the documented validity predicate fails, independently of earlier creations, and nothing '
               'else escapes; typed-equal kwargs in any order give the identical object, differing ones unequal objects, hash agrees with '
@@ -137,7 +152,6 @@ CHECKS = [
 
 NOT_APPLICABLE = [
     ('C05', 'quantifier over syntactically valid programs; the AST transformer only copies syntax, so there is no theory for a solver to decide and every path is one enumerated program; CrossHair realises at compile()'),
-    ('C08', 'trace equivalence of CPython generator/coroutine frames under send/throw/close sequences: opaque data, interpreter-internal state, C-level protocol methods; only explicit enumeration (another technique) remains'),
     ('C11', 'quantifier over arbitrary typing object graphs used as hints: no symbolic representation exists (typing hashes/realises any symbolic component); the decidable pass-through clause is claimed under C04'),
     ('C15', 'quantifier over thread schedules at bytecode granularity: no engine here models Python threads; a hand-written transition system would verify a model, not the code'),
     ('C16', 'state is on-disk bytecode across interpreter runs plus a process-global monkey-patch during get_code: pure I/O and process history, realised immediately by symbolic execution'),
@@ -176,8 +190,8 @@ def main():
         'engines': [
             {'name': 'G', 'path': '/verif/bearverif/sym.py', 'serves_properties': ['C01', 'C02', 'C03', 'C04', 'C07', 'C09', 'C10', 'C12', 'C13', 'C14', 'C18', 'C19', 'C20'],
              'kind_free_text': 'AST of the code beartype really generates -> z3 over a symbolic Python-object universe (unbounded container lengths); models replayed against the public API'},
-            {'name': 'X', 'path': '/verif/bearverif/xh', 'serves_properties': ['C03', 'C09', 'C10', 'C12', 'C17'],
-             'kind_free_text': 'CrossHair 0.0.110 symbolic execution of the real functions (error path, BeartypeConf.__new__, validators)'},
+            {'name': 'X', 'path': '/verif/bearverif/xh', 'serves_properties': ['C03', 'C08', 'C09', 'C10', 'C12', 'C17'],
+             'kind_free_text': 'CrossHair 0.0.110 symbolic execution of the real functions (error path, BeartypeConf.__new__, validators, wrapped coroutines / generators)'},
             {'name': 'P', 'path': '/verif/bearverif/proxy.py', 'serves_properties': ['C06'],
              'kind_free_text': 'forking z3-backed str proxies driven through the real claw package-trie code'},
         ],
